@@ -106,9 +106,9 @@ example : NodeWF ptrKeyN = true ∧ WT ptrKeyN ptrKeyV = true ∧ KeysOK true pt
 
 /-- `reset-nil-ptr-panics`: Reset of a value with a nil `*int` field (or a nil pointer element) dereferences it. -/
 theorem repo_not_correct :
-    resetAccepts .ptr (resetObsOfWith dropCaps (resetM GenCfg.repo exNode .ptr sparse)) = false ∧
-    resetAccepts .ptr (resetObsOfWith dropCaps (resetM { GenCfg.repo with resetNilPtrPanics := false } exNode .ptr sparse)) = true ∧
-    cycleAccepts [dense] (cycleModelWith dropCaps GenCfg.repo exNode sparse [dense]) = false := by
+    resetAccepts .ptr (resetObsOfWith dropCaps (resetM GenCfg.original exNode .ptr sparse)) = false ∧
+    resetAccepts .ptr (resetObsOfWith dropCaps (resetM { GenCfg.original with resetNilPtrPanics := false } exNode .ptr sparse)) = true ∧
+    cycleAccepts [dense] (cycleModelWith dropCaps GenCfg.original exNode sparse [dense]) = false := by
   decide
 
 /-- The copy-side classes show in cycles too (`copy-nil-elem-panics` here: `dense` has a nil `*Inner` element). -/
